@@ -122,6 +122,9 @@ pub fn run(cfg: &Config) -> i32 {
         if c == 0 && cfg.prop == "C01" {
             return c01_instruction_clock(cfg);
         }
+        if c == 0 && cfg.prop == "C18" {
+            return c18_decoder_stack(cfg);
+        }
         if (0..=2).contains(&c) {
             return c;
         }
@@ -165,6 +168,32 @@ fn c01_instruction_clock(cfg: &Config) -> i32 {
                 if let Some(cov) = j.get("coverage").cloned() {
                     let mut cov = cov;
                     cov.set("instruction_clock_scaling", frag);
+                    j.set("coverage", cov);
+                    if code == 1 {
+                        j.set("violations", J::int(1));
+                    }
+                    let _ = std::fs::write(&path, j.to_pretty());
+                }
+            }
+        }
+    }
+    code
+}
+
+/// C18's "never panics or loops" under a finite stack: long malformed runs through every trap in
+/// supervised child processes (see `c11::decoder_grid`); merged into the batch child's evidence.
+fn c18_decoder_stack(cfg: &Config) -> i32 {
+    if std::env::var_os("SIM_NO_SCALE").is_some() {
+        return 0;
+    }
+    let (code, frag) = crate::c11::decoder_grid(cfg);
+    if cfg.write_evidence && frag != J::Null {
+        let path = format!("{}/evidence/{}.json", cfg.verif_dir, cfg.prop);
+        if let Ok(s) = std::fs::read_to_string(&path) {
+            if let Ok(mut j) = J::parse(&s) {
+                if let Some(cov) = j.get("coverage").cloned() {
+                    let mut cov = cov;
+                    cov.set("decoder_stack_scenarios", frag);
                     j.set("coverage", cov);
                     if code == 1 {
                         j.set("violations", J::int(1));
